@@ -262,3 +262,11 @@ ASSUMPTIONS = ["for rendered classes the syntactic facts (start/stop lines, top-
                "refusedBequest and graphConnectedCall are outside the statement and filtered from both sides"]
 TRUSTED = ["vlib/javagen.py renderer ground truth", "ANTLR Java parser (exercised, not modelled)"]
 WITNESSES = {}
+
+
+def features(case):
+    """which finding kinds the statement demands for this case, the ignore/sort configuration: printed into the evidence"""
+    out = ["expects:" + k for k in sorted(set(e[0] for e in expected(case.get("nodes") or [])))] or ["expects:nothing"]
+    out.append("ignore:%d" % len([x for x in case.get("ignore", []) if x]))
+    out.append("sort:%s" % bool(case.get("sort")))
+    return out
